@@ -292,6 +292,8 @@ pub struct World {
     wait_done_pending: usize,
     pub events: usize,
     pub hung: Vec<usize>,
+    /// typed result of the most recently completed public call
+    pub last_out: Value,
 }
 
 fn key_pair(k: u64) -> Value {
@@ -392,6 +394,7 @@ impl World {
             wait_done_pending: 0,
             events: 0,
             hung: Vec::new(),
+            last_out: Value::Null,
         };
         let hdr = json!({"ev":"Init","flavor":w.cfg.flavor,"bufcap":w.cfg.buf_cap,"max":w.cfg.max_cost,
             "itemsize":w.item_size,"coster":match w.cfg.coster {CosterKind::Const2=>"const2",CosterKind::Mod3=>"mod3",CosterKind::Zero=>"zero"},
@@ -456,21 +459,20 @@ impl World {
             let job = make_job(cache, cmd, v);
             self.clients[c].actor.submit(job);
         } else {
-            match self.clients[c].actor.state() {
-                St::Parked(_) => self.clients[c].actor.grant(),
+            // decide BEFORE the grant whether the blocking call it may enter will block
+            let pre = self.snapshot();
+            let is_async = self.cfg.flavor == "async";
+            let pass = match self.clients[c].actor.state() {
+                St::Parked("block:cls_stop") => self.proc_exited || (is_async && pre.stop_len == 0),
+                St::Parked("block:pol_stop") => self.pol_exited || (is_async && pre.pol_stop_len == 0),
+                St::Parked("block:wait") => self.wait_done_pending > 0,
+                St::Parked("block:rem_send") => self.proc_exited || pre.buf_len < self.cfg.buf_cap,
+                St::Parked(_) => false,
                 _ => return, // blocked: cannot be stepped
-            }
+            };
+            self.clients[c].actor.grant();
             // entering a blocking call that will not block: wait for it to come out
             if let St::Blocked(kind) = self.clients[c].actor.state() {
-                let s = self.snapshot();
-                let is_async = self.cfg.flavor == "async";
-                let pass = match kind {
-                    "cls_stop" => self.proc_exited || (is_async && s.stop_len == 0),
-                    "pol_stop" => self.pol_exited || (is_async && s.pol_stop_len == 0),
-                    "wait" => self.wait_done_pending > 0,
-                    "rem_send" => self.proc_exited || s.buf_len < self.cfg.buf_cap,
-                    _ => false,
-                };
                 if pass {
                     self.clients[c].actor.wait_unblocked(Duration::from_secs(if kind == "wait" { 1 } else { 10 }));
                 }
@@ -534,6 +536,9 @@ impl World {
         };
         let mut ev = ev;
         ev["reached"] = json!(reached);
+        if st == St::Done {
+            self.last_out = out.clone();
+        }
         ev["out"] = out;
         self.clients[c].blocked = match &st {
             St::Blocked(k) => Some(*k),
@@ -1225,6 +1230,83 @@ pub fn profile(name: &str, flavor: &'static str) -> Profile {
             max_cost: (40, 60),
             keys: vec![0, 2, 3, 4, 5, 9],
             steps: 90,
+            ..base
+        },
+        "ttl_fine" => Profile {
+            name: "ttl_fine",
+            w: [6, 40, 4, 6, 20, 6, 25, 1, 0, 1, 0, 1],
+            p_advance: 0.45,
+            p_tick: 0.3,
+            ttls: vec![1, 2, 10, 998, 999, 1000, 1001, 1002, 1999, 2000, 2001],
+            advances: vec![1, 1, 2, 9, 10, 997, 998, 999, 1000, 1001, 1002],
+            max_cost: (40, 60),
+            keys: vec![3, 4, 5],
+            steps: 110,
+            ..base
+        },
+        "ttl_conc" => Profile {
+            name: "ttl_conc",
+            clients: 2,
+            sequential: false,
+            w: [12, 30, 4, 8, 14, 4, 10, 1, 0, 3, 0, 1],
+            p_advance: 0.2,
+            p_tick: 0.35,
+            ttls: vec![300, 500, 999, 1000, 1001, 1500, 2500],
+            advances: vec![100, 250, 499, 500, 501, 999, 1000, 1001, 2000],
+            max_cost: (40, 60),
+            keys: vec![0, 3, 4, 5],
+            steps: 160,
+            buf_cap: (2, 4),
+            ..base
+        },
+        "ttl_clear" => Profile {
+            name: "ttl_clear",
+            w: [10, 30, 3, 6, 15, 2, 10, 10, 0, 1, 0, 2],
+            p_advance: 0.35,
+            p_tick: 0.5,
+            ttls: vec![300, 999, 1000, 1500, 2500, 3_600_000],
+            advances: vec![100, 499, 500, 999, 1000, 1001, 2000],
+            max_cost: (40, 60),
+            keys: vec![0, 3, 4],
+            steps: 100,
+            ..base
+        },
+        "cond" => Profile {
+            name: "cond",
+            validator: ValKind::Asym3,
+            w: [14, 8, 30, 12, 16, 2, 6, 1, 0, 2, 0, 1],
+            p_advance: 0.15,
+            p_tick: 0.3,
+            ttls: vec![500, 1500],
+            advances: vec![400, 700, 1100],
+            sequential: false,
+            clients: 2,
+            keys: vec![0, 3, 4],
+            steps: 140,
+            max_cost: (20, 30),
+            ..base
+        },
+        "seq_coster0" => Profile { name: "seq_coster0", coster: CosterKind::Zero, ignore_internal: false, max_cost: (150, 400), costs: vec![0, 0, 1, 7], ..base },
+        "coll" => Profile {
+            name: "coll",
+            keys: vec![0, 1, 9, 10, 2],
+            w: [30, 6, 8, 14, 20, 4, 6, 1, 0, 2, 0, 1],
+            p_advance: 0.1,
+            p_tick: 0.3,
+            ttls: vec![500, 1500],
+            advances: vec![400, 700, 1100],
+            max_cost: (6, 12),
+            ..base
+        },
+        "coll_conc" => Profile {
+            name: "coll_conc",
+            clients: 2,
+            sequential: false,
+            steps: 140,
+            keys: vec![0, 1, 9, 10],
+            w: [30, 0, 8, 14, 18, 3, 0, 0, 0, 5, 0, 1],
+            buf_cap: (1, 3),
+            max_cost: (3, 8),
             ..base
         },
         "conc" => Profile {
